@@ -990,6 +990,130 @@ def headers_case(ctx, case):
         ctx.mismatch("headers: model predicts an internal exception the implementation does not raise", case, got, m)
 
 
+# ---- Q: missing survey sheet + range parameter cell (model Pyxv.PreRules; theorems Pyxv.C17.Pre.*): the model's
+# message against the message of convert(), both ways
+MUST_HAVE_SURVEY = "You must have a sheet named 'survey'. "
+RANGE_MSGS = ("Expecting parameters to be in the form of", "Accepted parameters are '", "Range parameters 'start', 'end' or 'step'")
+
+
+def prerules_cases(rng, n_random):
+    from pyxform import constants
+
+    key = "survey"
+    alpha = "abcsuvyrez_ S1"
+    near = {key, key.upper(), key.title(), "Surveys", "_survey", "_surve", "survey ", " survey", "sur vey", "surv", "sury", "srvy",
+            "choices", "settings", "entities", "osm", "external_choices", "Settings", "SURVE", "purvey", "surveyor", "surveyors",
+            "servey", "survay", "s", "", "data", "Sheet1", "survey_", "survey__", "__survey", "chioces"}
+    for i in range(len(key) + 1):
+        for c in "xS_ ":
+            near.add(key[:i] + c + key[i:])
+            near.add(key[:i] + c + key[i + 1:])
+        near.add(key[:i] + key[i + 1:])
+        for j in range(i + 1, len(key)):
+            near.add(key[:i] + key[i + 1:j] + key[j + 1:])
+    near = sorted(near)
+    sup = sorted(constants.SUPPORTED_SHEET_NAMES)
+
+    def wb(names, state):
+        raw = {"sheet_names": list(names)}
+        if state == "empty":
+            raw["survey"] = []
+            raw["survey_header"] = []
+        elif state == "header":
+            raw["survey"] = []
+            raw["survey_header"] = [{"type": None, "name": None, "label": None}]
+        elif state == "rows":
+            raw["survey"] = [{"type": "text", "name": "a", "label": "A"}]
+            raw["survey_header"] = [{"type": None, "name": None, "label": None}]
+        elif state == "rows-no-header":
+            raw["survey"] = [{"type": "text", "name": "a", "label": "A"}]
+        return {"stream": "prerules", "kind": "survey:" + state, "raw": raw, "via": "dict_raw"}
+
+    for n in near:
+        yield wb([n], "absent")
+        yield wb(["choices", n, "settings"], "empty")
+    for state in ("absent", "empty", "header", "rows", "rows-no-header"):
+        yield wb([], state)
+        yield wb(["survey"], state)
+        yield wb(["surveys", "Survey", "_survey", "survey2", "choices"], state)
+    for _ in range(n_random):
+        names = []
+        for _ in range(rng.randint(0, 5)):
+            r = rng.random()
+            if r < 0.5:
+                names.append(rng.choice(near))
+            elif r < 0.7:
+                names.append(rng.choice(sup))
+            else:
+                w = list(key)
+                for _ in range(rng.randint(1, 3)):
+                    op = rng.randint(0, 2)
+                    i = rng.randint(0, len(w))
+                    if op == 0:
+                        w.insert(i, rng.choice(alpha))
+                    elif op == 1 and w:
+                        w.pop(min(i, len(w) - 1))
+                    elif w:
+                        w[min(i, len(w) - 1)] = rng.choice(alpha)
+                names.append("".join(w))
+        yield wb(names, rng.choice(["absent", "absent", "empty", "empty", "header", "rows"]))
+    # range parameter cells
+    keys = ["start", "end", "step", "START", " End", "step ", "foo", "bar", "rows", "steps", "star", "", "a b", "Zed", "_x", "end2"]
+    vals = ["1", "10", "1.5", "-2", "+3", ".5", "5.", "0", "0.0", "abc", "", "q", "1e3", "nan", "inf", "0x10", "1_0", "--1", "1.2.3",
+            "1,5", "2 3", "TRUE", "one", "1.", "-", ".", "+.5", "١", "1=2", "$", "12abc", "3%"]
+    seps = [" ", ";", ",", "; ", " ;", ", ", "  "]
+
+    def rc(cell, depth=0, before=0):
+        rows = [{"type": "text", "name": f"t{i}", "label": "T"} for i in range(before)]
+        inner = [{"type": "range", "name": "r", "label": "R", "parameters": cell}]
+        for d in range(depth):
+            inner = [{"type": "begin group", "name": f"g{d}", "label": "G"}] + inner + [{"type": "end group"}]
+        return {"stream": "prerules", "kind": "range", "cell": cell, "form": {"survey": rows + inner}, "via": "dict"}
+
+    for k in keys:
+        for v in vals:
+            yield rc(f"{k}={v}")
+    for v in vals:
+        yield rc(f"start=1 end={v} step=1")
+        yield rc(f"start={v};end=x;foo=1")
+    for cell in ("", " ", "start", "start end", "start=1 end", "=", "==", "a=b=c", "start=1;;end=2", "start=1,end=2,", ";", ",",
+                 "start=1 , end=2", "foo=1 bar=2", "zz=1 Ab=2 ab=3", "start=1 start=x", "start=x start=1", "END=9 end=z",
+                 "step=1.5;end=2;start=0.5", "label=A value=B", "foo", "foo bar=1"):
+        yield rc(cell)
+    for _ in range(n_random):
+        parts = []
+        for _ in range(rng.randint(1, 4)):
+            r = rng.random()
+            k = rng.choice(keys[:3]) if r < 0.6 else rng.choice(keys)
+            v = rng.choice(vals[:9]) if rng.random() < 0.6 else rng.choice(vals)
+            parts.append(k if rng.random() < 0.07 else f"{k}={v}")
+        yield rc(rng.choice(seps).join(parts), depth=rng.randint(0, 2), before=rng.randint(0, 3))
+
+
+def prerules_case(ctx, case):
+    r = run_case(case)
+    check_no_internal(ctx, case, r)
+    got = {k: r.get(k) for k in ("class", "exc", "site", "msg")}
+    msg = r.get("msg") or ""
+    if case["kind"].startswith("survey:"):
+        raw = case["raw"]
+        m = ctx.driver.call("c17.survey_precheck", sheet_names=raw["sheet_names"], has_rows=bool(raw.get("survey")),
+                            has_header=bool(raw.get("survey_header")))
+        mine = r["class"] == "pyxform" and msg.startswith(MUST_HAVE_SURVEY)
+    else:
+        m = ctx.driver.call("c17.range_cell", raw=case["cell"])
+        mine = r["class"] == "pyxform" and msg.startswith(RANGE_MSGS)
+    ctx.count(f"Q:{case['kind']}:model:{m['outcome']}/impl:{r['class']}")
+    if m["outcome"] == "unsupported":
+        return
+    if m["outcome"] == "reject":
+        if not (r["class"] == "pyxform" and msg == m["msg"]):
+            ctx.mismatch("prerules: the model's diagnosis is not the message of convert()", case, got, m)
+    elif mine or (case["kind"] == "range" and r["class"] != "ok"):
+        ctx.mismatch("prerules: the implementation refuses what the model accepts", case, got, m)
+
+
+
 def every_kind_prefix(langs):
     """a valid block containing one row of every kind the row loop distinguishes (state that the loop carries
     from row to row — parameter lists, table-list flag, stack, question names — is exercised before the mutated row)"""
@@ -1105,6 +1229,11 @@ def explore(ctx, factor, bs):
         for case in headers_cases(rng, ctx.pick(150, 1500)):
             headers_case(ctx, case)
             ctx.record(case, True)
+    # ---- Q: missing survey sheet, range parameter cell — message level (model Pyxv.PreRules, theorems Pyxv.C17.Pre.*)
+    if factor == 1:
+        for case in prerules_cases(rng, ctx.pick(120, 1200)):
+            prerules_case(ctx, case)
+            ctx.record(case, True)
     # ---- A: catalogue
     n_forms = ctx.pick(12, 70) * factor
     site_cap = ctx.pick(32, 110)
@@ -1178,6 +1307,8 @@ def replay(ctx, payload, bs):
         preloop_case(ctx, case)
     elif case.get("stream") == "headers":
         headers_case(ctx, case)
+    elif case.get("stream") == "prerules":
+        prerules_case(ctx, case)
     elif case.get("stream") == "near-miss":
         near_miss_case(ctx, case)
     elif case.get("stream") == "separators":
